@@ -145,3 +145,6 @@ def run(ctx):
         kind, rq = owners[failing[0]]
         ctx.broke("correspondence", "Prox/SolverKernels vs drv_solve ALM records (%s)" % kind,
                   json.dumps({"first_disagreeing_case": terms[failing[0]], "request": rq.describe(), "n_disagreements": len(failing)}))
+    # whole-loop tie for PANOC: verified model (Panoc.v) vs the real solver on whole runs
+    from vf.props import PANOC
+    PANOC.attach(ctx)
